@@ -1,4 +1,5 @@
 import MjProof.Model.UserPool
+import MjProof.Model.SpecCopy
 import Drivers.Common
 /-
 Line protocol of the C33 thread-pool model:
@@ -13,6 +14,12 @@ Line protocol of the C33 thread-pool model:
               E thread exit, S spurious, D disabled), then ` # ctr=<ctr_ when WaitCount returned> exec=.. by=.. done=<0|1>`
               (or `DEADLOCK` before the `#` when nobody can move)
   free <seed> <N> <T>            real threads: the expected observable outcome `ok ctr>=T exec=all1`
+  kindok <order> | <tree> | <a>b,...>   order / tree: comma-separated kind codes (`-` = empty); edges: referrer>referenced
+      output: `ok`, or `bad <a>><b>,...` listing the edges that are neither self edges, nor into a tree kind, nor into a
+              kind copied strictly earlier (`SpecCopy.kindOK`)
+  copy <order> | <tree> | <kind>:<name>:<rk>.<rn>+<rk>.<rn> ...   the deep copy of a spec (`SpecCopy.copySpec`); one word
+      per element in list order, names are numbers, the reference list may be empty
+      output: `kept <k>:<count>,... dropped <kind>.<name>,...` (kinds = tree then order; `-` for an empty list)
 Malformed lines are answered with `bad-op`.
 -/
 open MjProof MjProof.Driver MjProof.UserPool
@@ -96,8 +103,48 @@ def runOp (n t : Nat) (toks : List Tok) : String :=
   let dl := if r2.s.mpc == .done then "" else " DEADLOCK"
   s!"{body}{dl} # ctr={showOpt r2.ctrRet} exec={exec} by={by_} done={if r2.s.mpc == .done then 1 else 0}"
 
+-- ---------------------------------------------------------------------------------------- SpecCopy ops
+def parseCsvNat (w : String) : Option (List Nat) :=
+  if w == "-" then some [] else (w.splitOn ",").mapM (fun x => x.toNat?)
+
+def parsePair (sep : String) (w : String) : Option (Nat × Nat) :=
+  match w.splitOn sep with
+  | [a, b] => match a.toNat?, b.toNat? with
+    | some a, some b => some (a, b)
+    | _, _ => none
+  | _ => none
+
+def parseEdges (w : String) : Option (List (Nat × Nat)) :=
+  if w == "-" then some [] else (w.splitOn ",").mapM (parsePair ">")
+
+def parseElem (w : String) : Option SpecCopy.Elem :=
+  match w.splitOn ":" with
+  | [k, n, r] => match k.toNat?, n.toNat?, (if r == "" then some [] else (r.splitOn "+").mapM (parsePair ".")) with
+    | some k, some n, some refs => some ⟨k, n, refs⟩
+    | _, _, _ => none
+  | _ => none
+
+def showList (l : List String) : String := if l.isEmpty then "-" else ",".intercalate l
+
+def copyOp (order tree : List Nat) (src : List SpecCopy.Elem) : String :=
+  let dest := SpecCopy.copySpec order tree src
+  let kinds := (tree ++ order).eraseDups
+  let kept := kinds.map (fun k => s!"{k}:{SpecCopy.keptCount dest k}")
+  let dropped := (src.filter (fun e => !dest.contains e.key)).map (fun e => s!"{e.kind}.{e.name}")
+  s!"kept {showList kept} dropped {showList dropped}"
+
 def stepLine (line : String) : String :=
   match words line with
+  | ["kindok", o, "|", t, "|", e] =>
+    match parseCsvNat o, parseCsvNat t, parseEdges e with
+    | some o, some t, some e =>
+      if SpecCopy.kindOK o t e then "ok" else
+        "bad " ++ showList ((SpecCopy.badEdges o t e).map (fun ab => s!"{ab.1}>{ab.2}"))
+    | _, _, _ => "bad-op"
+  | "copy" :: o :: "|" :: t :: "|" :: es =>
+    match parseCsvNat o, parseCsvNat t, es.mapM parseElem with
+    | some o, some t, some es => if es.length ≤ 2000 then copyOp o t es else "bad-op"
+    | _, _, _ => "bad-op"
   | "run" :: n :: t :: "|" :: toks =>
     match n.toNat?, t.toNat?, toks.mapM parseTok with
     | some n, some t, some toks =>
